@@ -1,0 +1,135 @@
+//! Verification hooks for property C34 (compiled only with `--cfg libp2p_verif`).
+//!
+//! Child module of `behaviour`: thin `pub` wrappers that only *call* existing private
+//! functions of [`Behaviour`] (the same entry points the crate's own tests use).
+
+use libp2p_core::{ConnectedPoint, Endpoint, Multiaddr, transport::PortUse};
+use libp2p_identity::PeerId;
+use libp2p_swarm::{
+    ConnectionId, NetworkBehaviour,
+    behaviour::{ConnectionEstablished, FromSwarm},
+};
+
+use super::Behaviour;
+use crate::{
+    handler::HandlerEvent,
+    subscription_filter::TopicSubscriptionFilter,
+    topic::TopicHash,
+    transform::DataTransform,
+    types::{PeerKind, Subscription, SubscriptionAction, SubscriptionOpts},
+};
+
+/// Runs one heartbeat (private `Behaviour::heartbeat`).
+pub fn heartbeat<D, F>(gs: &mut Behaviour<D, F>)
+where
+    D: DataTransform + Send + 'static,
+    F: TopicSubscriptionFilter + Send + 'static,
+{
+    gs.heartbeat()
+}
+
+/// Registers a connected peer through the `NetworkBehaviour` entry points the swarm uses:
+/// `handle_established_{in,out}bound_connection`, `ConnectionEstablished`, and the handler's
+/// `PeerKind` report (gossipsub v1.1 when `gossipsub`, otherwise the peer stays floodsub).
+pub fn add_peer<D, F>(
+    gs: &mut Behaviour<D, F>,
+    peer: PeerId,
+    connection: usize,
+    outbound: bool,
+    gossipsub: bool,
+) where
+    D: DataTransform + Send + 'static,
+    F: TopicSubscriptionFilter + Send + 'static,
+{
+    let connection_id = ConnectionId::new_unchecked(connection);
+    let address = Multiaddr::empty();
+    let endpoint = if outbound {
+        let _ = gs.handle_established_outbound_connection(
+            connection_id,
+            peer,
+            &address,
+            Endpoint::Dialer,
+            PortUse::Reuse,
+        );
+        ConnectedPoint::Dialer {
+            address,
+            role_override: Endpoint::Dialer,
+            port_use: PortUse::Reuse,
+        }
+    } else {
+        let _ = gs.handle_established_inbound_connection(connection_id, peer, &address, &address);
+        ConnectedPoint::Listener {
+            local_addr: Multiaddr::empty(),
+            send_back_addr: address,
+        }
+    };
+    gs.on_swarm_event(FromSwarm::ConnectionEstablished(ConnectionEstablished {
+        peer_id: peer,
+        connection_id,
+        endpoint: &endpoint,
+        failed_addresses: &[],
+        other_established: 0,
+    }));
+    if gossipsub {
+        gs.on_connection_handler_event(
+            peer,
+            connection_id,
+            HandlerEvent::PeerKind(PeerKind::Gossipsubv1_1),
+        );
+    }
+}
+
+/// Delivers a subscription RPC from `peer` (private `handle_received_subscriptions`).
+pub fn recv_subscriptions<D, F>(
+    gs: &mut Behaviour<D, F>,
+    peer: &PeerId,
+    subscriptions: &[(bool, TopicHash)],
+) where
+    D: DataTransform + Send + 'static,
+    F: TopicSubscriptionFilter + Send + 'static,
+{
+    let subscriptions = subscriptions
+        .iter()
+        .map(|(subscribe, topic_hash)| Subscription {
+            action: if *subscribe {
+                SubscriptionAction::Subscribe
+            } else {
+                SubscriptionAction::Unsubscribe
+            },
+            topic_hash: topic_hash.clone(),
+            options: SubscriptionOpts::default(),
+        })
+        .collect::<Vec<_>>();
+    gs.handle_received_subscriptions(&subscriptions, peer)
+}
+
+/// Delivers a GRAFT from `peer` (private `handle_graft`).
+pub fn recv_graft<D, F>(gs: &mut Behaviour<D, F>, peer: &PeerId, topics: Vec<TopicHash>)
+where
+    D: DataTransform + Send + 'static,
+    F: TopicSubscriptionFilter + Send + 'static,
+{
+    gs.handle_graft(peer, topics)
+}
+
+/// `backoffs.is_backoff_with_slack(topic, peer)`.
+pub fn is_backoff<D, F>(gs: &Behaviour<D, F>, topic: &TopicHash, peer: &PeerId) -> bool {
+    gs.backoffs.is_backoff_with_slack(topic, peer)
+}
+
+/// `(outbound, kind.is_gossipsub())` of a connected peer.
+pub fn peer_flags<D, F>(gs: &Behaviour<D, F>, peer: &PeerId) -> Option<(bool, bool)> {
+    gs.connected_peers
+        .get(peer)
+        .map(|p| (p.outbound, p.kind.is_gossipsub()))
+}
+
+/// Is `peer` an explicit peer?
+pub fn is_explicit<D, F>(gs: &Behaviour<D, F>, peer: &PeerId) -> bool {
+    gs.explicit_peers.contains(peer)
+}
+
+/// The current heartbeat tick counter.
+pub fn heartbeat_ticks<D, F>(gs: &Behaviour<D, F>) -> u64 {
+    gs.heartbeat_ticks
+}
